@@ -161,6 +161,7 @@ static void run_tr(std::vector<std::string> const& w) {
 	std::vector<long> x; for(long i = 0; i < n; ++i) x.push_back(std::stol(w[7 + static_cast<std::size_t>(i)]));
 	auto b = x.begin(); long pos = 0;
 	if(name == "reverse") { std::reverse(x.begin(), x.end()); }
+	else if(name == "sort") { std::sort(x.begin(), x.end()); }
 	else if(name == "fill") { std::fill(b + p1, b + p1 + p2, p3); pos = p1 + p2; }
 	else if(name == "partition") { pos = std::partition(x.begin(), x.end(), [](long v) { return v % 2 == 0; }) - b; }
 	else if(name == "unique") { pos = std::unique(x.begin(), x.end()) - b; }
@@ -181,12 +182,12 @@ static void run_tr(std::vector<std::string> const& w) {
 }
 
 static char const* const TRS[] = {"reverse", "fill", "partition", "unique", "remove", "find", "is_sorted", "accumulate", "copy", "copy_backward",
-	"swap_ranges", "transform", "equal", "lexcmp"};
-constexpr int NTRS = 14;
+	"swap_ranges", "transform", "equal", "lexcmp", "sort"};
+constexpr int NTRS = 15;
 // one generated `x tr` line: values with duplicates (modulus 2..6), sometimes sorted, length 0..12; parameters made valid here
 static std::string gen_tr(Rng& rng) {
 	std::string name = TRS[rng.range(0, NTRS - 1)];
-	long n = rng.range(0, 12); long modulus = rng.range(2, 6);
+	long n = rng.range(0, 12); long modulus = rng.range(2, 6);   // n <= 16: std::sort is __insertion_sort
 	std::vector<long> x; for(long i = 0; i < n; ++i) x.push_back(rng.range(0, modulus - 1));
 	if(rng.coin(name == "is_sorted" ? 60 : 15)) std::sort(x.begin(), x.end());
 	long p1 = 0, p2 = 0, p3 = 0;
